@@ -12,15 +12,19 @@ from ..spec import tables as T
 
 LEVEL = "other"
 EXPLANATION = (
-    "Bit-provenance abstract interpretation (sa/bits.py) of every status/ability decoder: for each decoded field the analysis derives which bits "
-    "of which struct slot reach it, through which mask/shift, enum class, boolean test or affine map, under which guard - for all byte values at "
-    "once. R1 the derived layout (absolute byte/bit positions) equals the vendor table; R2 each status enum's members are exactly the vendor's "
-    "defined codes and the enum has no _missing_ hook (undefined codes are rejected, never mapped to a defined member); R3 affine readings "
-    "(temperature (raw-500)/10 on the vendor's 11 bits, AT5 set-point (raw+100)/10); R4 documented not-available codes: constant propagation of "
-    "each vendor sentinel, combined with every value of the unrelated bits sharing its slot, through the derived guarded value must give absent "
-    "or a rejection; R5 strides: the AT5 status decoders advance by header.repeat_length in an accepted idiom and reject strides below the record "
-    "size, AT4 ability reads the group bitmap iff following_length == 24; R6 strings are cut by the announced length before decoding, C strings "
-    "stop at the first NUL, version separators '|' (AT4) and ',' (AT5). The transcription of the vendor tables is QA'd on the vendor's example frames first."
+    'Bit-provenance abstract interpretation (sa/bits.py) of every status/ability decoder: for each decoded field the analysis derives which bits of which '
+    'struct slot reach it, through which mask/shift, enum class, boolean test or affine map, under which guard - for all byte values at once. R1 the '
+    "derived layout (absolute byte/bit positions) equals the vendor table; R2 each status enum's members are exactly the vendor's defined codes and the "
+    'enum has no _missing_ hook (undefined codes are rejected, never mapped to a defined member); R3 affine readings (temperature (raw-500)/10 on the '
+    "vendor's 11 bits, AT5 set-point (raw+100)/10); R4 documented not-available codes: constant propagation of each vendor sentinel, combined with every "
+    'value of the unrelated bits sharing its slot, through the derived guarded value must give absent or a rejection; R5 strides: the AT5 status decoders '
+    'advance by header.repeat_length in an accepted idiom and reject strides below the record size, AT4 ability reads the group bitmap iff following_length '
+    '== 24; R6 variable-length strings, decided in a buffer-offset domain (sa/offsets.py: positions as linear forms over the announced length, the loop '
+    'index and byte values; loops summarised by their stride; decode() as exits with path conditions): AT4 group record k of message_length // 9 is number '
+    '= byte 9k, name = C string of bytes 9k+1..9k+8; AT5 zone records run from 0 while the position is below the announced length with number = byte p, '
+    'length = byte p+1, name = UTF-8 of the next `length` bytes, next record right after, and a name passing the announced length raises; console version = '
+    "UTF-8 of bytes 2..2+byte 1 split at '|' (AT4) / ',' (AT5), update flag = byte 0 != 0; AC error text = UTF-8 of bytes 2..2+byte 1 exactly when byte 1 "
+    "!= 0, else absent; C strings stop at the first NUL. The transcription of the vendor tables is QA'd on the vendor's example frames first."
 )
 ASSUMPTIONS = ["vendor tables transcribed in sa/spec/tables.py (DESIGN Appendix A) are the oracle", "struct.unpack_from slot layout as computed from the literal format string"]
 FLOORS = {"C05.R1": 60, "C05.R2": 12, "C05.R3": 6, "C05.R4": 5, "C05.R5": 7, "C05.R6": 8}
